@@ -53,6 +53,7 @@ enum Ev {
     Locked { id: u64 },
     Released { id: u64 },
     PoolReq { q: String },
+    PoolQueued,
     PoolGranted,
     PoolReleased,
 }
@@ -79,6 +80,7 @@ pub fn install_handler() {
             "lock.locked" => Ev::Locked { id: detail.parse().unwrap_or(0) },
             "lock.released" => Ev::Released { id: detail.parse().unwrap_or(0) },
             "pool.request" => Ev::PoolReq { q: detail.to_string() },
+            "pool.queued" => Ev::PoolQueued,
             "pool.granted" => Ev::PoolGranted,
             "pool.released" => Ev::PoolReleased,
             _ => return,
@@ -183,6 +185,9 @@ pub struct RunOut {
     pub violations: Vec<(String, Value)>,
     pub programs: BTreeMap<usize, Vec<String>>,
     pub preemptions: usize,
+    /// the recorded prefix asked for a choice that was not enabled here (a task registered its
+    /// wait in another order than in the run that recorded the prefix): still a real execution
+    pub diverged: bool,
 }
 
 fn prio(q: &str) -> u8 {
@@ -290,7 +295,8 @@ pub fn run_schedule(w: &World, paths: &[Path], prefix: &[usize]) -> RunOut {
         let mut pool = PoolModel::default();
         let mut cursor = 0usize;
         let mut seqno = 0u64;
-        let mut out = RunOut { widths: vec![], acts: vec![], violations: vec![], programs: BTreeMap::new(), preemptions: 0 };
+        let mut out = RunOut { widths: vec![], acts: vec![], violations: vec![], programs: BTreeMap::new(), preemptions: 0, diverged: false };
+        let mut pending_q: Vec<Option<String>> = vec![None; n]; // priority of a released, not yet queued pool request
         let mut last: Option<usize> = None;
         let mut results: Vec<Option<Result<(), String>>> = (0..n).map(|_| None).collect();
 
@@ -298,25 +304,6 @@ pub fn run_schedule(w: &World, paths: &[Path], prefix: &[usize]) -> RunOut {
         fn grantable(l: &LockModel, w: bool) -> bool {
             if w { l.holders.is_empty() && l.queue.is_empty() } else { !l.holders.iter().any(|h| h.2) && l.queue.is_empty() }
         }
-        // after a release: which queued entries get the lock now
-        fn promote(l: &mut LockModel) -> Vec<(u64, Option<usize>, bool)> {
-            let mut got = vec![];
-            loop {
-                let Some(&(id, t, w)) = l.queue.front() else { break };
-                let ok = if w { l.holders.is_empty() } else { !l.holders.iter().any(|h| h.2) };
-                if !ok {
-                    break;
-                }
-                l.queue.pop_front();
-                l.holders.push((id, t, w));
-                got.push((id, t, w));
-                if w {
-                    break;
-                }
-            }
-            got
-        }
-
         let t0 = Instant::now();
         'outer: loop {
             // ---- settle: consume events until no harness task is Running
@@ -340,7 +327,7 @@ pub fn run_schedule(w: &World, paths: &[Path], prefix: &[usize]) -> RunOut {
                 };
                 for (t, ev) in evs {
                     if let Some(t) = t {
-                        if matches!(st[t], St::Waiting(_)) && !matches!(ev, Ev::Locked { .. } | Ev::PoolGranted) {
+                        if matches!(st[t], St::Waiting(_)) && !matches!(ev, Ev::Locked { .. } | Ev::PoolGranted | Ev::PoolQueued) {
                             machinery_error(&format!("C20-B: task {t} produced {ev:?} while the controller believed it was waiting"));
                         }
                     }
@@ -370,6 +357,8 @@ pub fn run_schedule(w: &World, paths: &[Path], prefix: &[usize]) -> RunOut {
                                 if let Some(pos) = l.queue.iter().position(|q| q.0 == id) {
                                     let e = l.queue.remove(pos).unwrap();
                                     l.holders.push(e);
+                                } else if !l.holders.iter().any(|h| h.0 == id) {
+                                    l.holders.push((id, t, true));
                                 }
                             }
                             if let Some(t) = t {
@@ -379,13 +368,9 @@ pub fn run_schedule(w: &World, paths: &[Path], prefix: &[usize]) -> RunOut {
                         Ev::Released { id } => {
                             if let Some(lock) = lock_of.get(&id).cloned() {
                                 let l = locks.entry(lock).or_default();
+                                // who gets the lock next is observed (its `locked` event), not predicted
                                 l.holders.retain(|h| h.0 != id);
                                 l.queue.retain(|q| q.0 != id);
-                                for (_id, t2, _w) in promote(l) {
-                                    if let Some(t2) = t2 {
-                                        st[t2] = St::Running;
-                                    }
-                                }
                             }
                         }
                         Ev::PoolReq { q } => match t {
@@ -399,6 +384,16 @@ pub fn run_schedule(w: &World, paths: &[Path], prefix: &[usize]) -> RunOut {
                                 pool.queued.push((None, prio(&q), seqno));
                             }
                         },
+                        Ev::PoolQueued => {
+                            if let Some(t) = t {
+                                if let Some(q) = pending_q[t].take() {
+                                    seqno += 1;
+                                    pool.queued.push((Some(t), prio(&q), seqno));
+                                    // whether it is served now is observed (`granted`), not predicted
+                                    st[t] = St::Waiting(format!("write-conn {q}"));
+                                }
+                            }
+                        }
                         Ev::PoolGranted => {
                             pool.queued.retain(|e| e.0 != t);
                             pool.holder = Some(t);
@@ -408,12 +403,6 @@ pub fn run_schedule(w: &World, paths: &[Path], prefix: &[usize]) -> RunOut {
                         }
                         Ev::PoolReleased => {
                             pool.holder = None;
-                            // the dispatcher serves the best queued request next
-                            if let Some(best) = pool.queued.iter().max_by(|x, y| x.1.cmp(&y.1).then(y.2.cmp(&x.2))).cloned() {
-                                if let Some(t2) = best.0 {
-                                    st[t2] = St::Running;
-                                }
-                            }
                         }
                     }
                 }
@@ -422,8 +411,20 @@ pub fn run_schedule(w: &World, paths: &[Path], prefix: &[usize]) -> RunOut {
                         st[i] = St::Done;
                     }
                 }
-                if !st.iter().any(|x| *x == St::Running) && LOG.lock().unwrap().len() == cursor {
-                    break;
+                // somebody who waits can go on right now: the connection is free and requests are
+                // queued, or a lock has waiters and nothing that conflicts with all of them is held
+                let progress_possible = (pool.holder.is_none() && !pool.queued.is_empty())
+                    || locks.values().any(|l| {
+                        !l.queue.is_empty()
+                            && (l.holders.is_empty() || (!l.holders.iter().any(|h| h.2) && !l.queue.iter().any(|q| q.2) && l.queue.iter().any(|q| !q.2)))
+                    });
+                if !st.iter().any(|x| *x == St::Running) && !progress_possible && LOG.lock().unwrap().len() == cursor {
+                    // a task released towards a held lock registers its wait without an event: give
+                    // the log a moment to stay quiet before believing the state
+                    tokio::time::sleep(Duration::from_millis(2)).await;
+                    if LOG.lock().unwrap().len() == cursor {
+                        break;
+                    }
                 }
                 if settle_start.elapsed() > Duration::from_secs(20) {
                     machinery_error(&format!("C20-B: tasks did not settle: {st:?} paths {paths:?} acts {:?} log {:?}", out.acts, LOG.lock().unwrap()));
@@ -456,9 +457,12 @@ pub fn run_schedule(w: &World, paths: &[Path], prefix: &[usize]) -> RunOut {
             }
             let k = out.widths.len();
             let choice = if k < prefix.len() { prefix[k] } else { 0 };
-            if choice >= enabled.len() {
-                machinery_error(&format!("C20-B: schedule prefix diverged at step {k}: choice {choice} of {} ({paths:?})", enabled.len()));
-            }
+            let choice = if choice >= enabled.len() {
+                out.diverged = true;
+                choice % enabled.len()
+            } else {
+                choice
+            };
             out.widths.push(enabled.len());
             let t = enabled[choice];
             if let Some(l) = last {
@@ -485,10 +489,9 @@ pub fn run_schedule(w: &World, paths: &[Path], prefix: &[usize]) -> RunOut {
                     }
                 }
                 Some(Ev::PoolReq { q }) => {
-                    seqno += 1;
-                    let free = pool.holder.is_none() && pool.queued.is_empty();
-                    pool.queued.push((Some(t), prio(&q), seqno));
-                    st[t] = if free { St::Running } else { St::Waiting(format!("write-conn {q}")) };
+                    // it runs until its request sits in the dispatcher's queue (`queued` event)
+                    pending_q[t] = Some(q);
+                    st[t] = St::Running;
                 }
                 _ => machinery_error("C20-B: parked task without a gate"),
             }
@@ -523,6 +526,8 @@ pub fn run_schedule(w: &World, paths: &[Path], prefix: &[usize]) -> RunOut {
 }
 
 /// Explore every schedule of `paths` with at most `bound` preemptions. Returns (schedules, actions, capped).
+pub static DIVERGED: std::sync::atomic::AtomicU64 = std::sync::atomic::AtomicU64::new(0);
+
 pub fn explore(rep: &Report, w: &World, paths: &[Path], bound: usize, deadline: Instant, programs: &mut BTreeMap<String, Vec<String>>) -> (u64, u64, bool) {
     let mut stack: Vec<Vec<usize>> = vec![vec![]];
     let mut n = 0u64;
@@ -534,6 +539,9 @@ pub fn explore(rep: &Report, w: &World, paths: &[Path], bound: usize, deadline: 
         let out = run_schedule(w, paths, &prefix);
         n += 1;
         acts += out.acts.len() as u64;
+        if out.diverged {
+            DIVERGED.fetch_add(1, SeqCst);
+        }
         if !out.violations.is_empty() {
             let again = run_schedule(w, paths, &prefix);
             let k1: Vec<&String> = out.violations.iter().map(|v| &v.0).collect();
@@ -606,7 +614,7 @@ pub fn part_b(rep: &Report, tier: Tier, deadline: Instant) -> Value {
         }
         done += 1;
     }
-    json!({"schedules": total.0, "actions": total.1, "task_sets_fully_explored": done, "task_sets": sets.len(), "preemption_bound": bound, "cap": cap,
+    json!({"schedules": total.0, "actions": total.1, "schedules_whose_recorded_prefix_was_not_reproducible": DIVERGED.load(SeqCst), "task_sets_fully_explored": done, "task_sets": sets.len(), "preemption_bound": bound, "cap": cap,
         "lock_programs_observed": programs,
         "paths": PATHS.iter().map(|p| format!("{p:?}")).collect::<Vec<_>>()})
 }
